@@ -401,8 +401,13 @@ func Finish(ch *Check, c *Ctx, root string, wall time.Duration) int {
 		"coverage": cov, "assumptions": ch.Assume, "wall_s": wall.Seconds(), "violations": violations,
 	}
 	js, _ := json.MarshalIndent(ev, "", " ")
-	os.MkdirAll(filepath.Join(root, "evidence"), 0o755)
-	os.WriteFile(filepath.Join(root, "evidence", ch.ID+".json"), js, 0o644)
+	// VERIF_EVIDENCE_DIR: runs against a scratch tree (tools/runseeded.sh) must not overwrite the evidence of /repo
+	evdir := os.Getenv("VERIF_EVIDENCE_DIR")
+	if evdir == "" {
+		evdir = filepath.Join(root, "evidence")
+	}
+	os.MkdirAll(evdir, 0o755)
+	os.WriteFile(filepath.Join(evdir, ch.ID+".json"), js, 0o644)
 	fmt.Printf("%s %s: states=%d transitions=%d executions=%d evaluations=%d nontrivial=%d exhaustive=%v violations=%d known=%d wall=%.1fs\n",
 		ch.ID, c.Tier, states, trans, c.Executions, c.Evaluations, c.Nontrivial, exhaustive, violations, len(knownKeys), wall.Seconds())
 	if exit == 0 && len(c.Internal) > 0 {
